@@ -19,7 +19,7 @@ CASE_TIMEOUT = {'quick': 20, 'thorough': 120}
 
 
 def floors(tier):
-    return {'distinct_nontrivial': 1500 if tier == 'quick' else 25000, 'generic_sw': 500, 'generic_proj': 500,
+    return {'distinct_nontrivial': 1500 if tier == 'quick' else 150000, 'generic_sw': 500, 'generic_proj': 500,
             'generic_normsq': 200, 'own_composition_compared': 1200, 'blades_dropped_by_presimplification': 200,
             'cse_false_cases': 100}
 
@@ -54,17 +54,17 @@ def plan(tier, seed):
         for c in d2:
             U += u(c, 'exh_canon', 4)
             U += u(dict(c, opts={'cse': False}), 'exh_canon_sample', 2, frac=0.3)
-            U += u(c, 'sparse', 1, count=60, cap=4, perm=1.0)
+            U += u(c, 'sparse', 1, count=400, cap=4, perm=1.0)
         for c in d3:
-            U += u(c, 'gradeblocks', 1, count=20, cap=4)
-            U += u(c, 'sparse', 1, count=50, cap=4, perm=0.3)
+            U += u(c, 'gradeblocks', 1, count=60, cap=4)
+            U += u(c, 'sparse', 2, count=250, cap=4, perm=0.3)
         for c in rng.sample(d3, 8):
-            U += u(dict(c, opts={'cse': False}), 'sparse', 1, count=40, cap=4)
+            U += u(dict(c, opts={'cse': False}), 'sparse', 1, count=300, cap=4)
         for c in gen.pqr_all(4, 5):
-            U += u(c, 'gradeblocks', 1, count=8, cap=6)
-            U += u(c, 'sparse', 1, count=25, cap=3 if gen.cfg_dim(c) == 5 else 4)
-        for _ in range(60):
-            U += u(gen.random_custom_cfg(rng, rng.choice((2, 3, 3, 4, 4))), 'sparse', 1, count=20, cap=4)
+            U += u(c, 'gradeblocks', 1, count=20, cap=6)
+            U += u(c, 'sparse', 2, count=120, cap=3 if gen.cfg_dim(c) == 5 else 4)
+        for _ in range(300):
+            U += u(gen.random_custom_cfg(rng, rng.choice((2, 3, 3, 4, 4))), 'sparse', 1, count=60, cap=4)
         for c in gen.NAMED:
             U += u(c, 'sparse', 2, count=25, cap=3 if c['named'] == 'STAP' else 4)
         nshards = 64
